@@ -10,7 +10,7 @@ from ..refs import semver as ref
 
 ALPHABET = ["0", "1", "9", "a", "Z", "-", ".", "+", "v", "٣", "é", "\u212a", "\u017f"]   # incl. Kelvin sign and long s (case-fold to k / s)
 PREFIXES = ["1.2.3", "v0.0.9", "1.2.3-", "1.2.3+", "1.2.3-a.", "1.2.3-0.", "10.1.0-rc.1+", "1.2.3-a+", "0.0.", "1."]
-EDIT_CHARS = ALPHABET + ["\n", " ", "\x00", "１", "𝟙", "_", "A", "z", "5", "V", "\t", "²"] + list("=*~^<>,;:@#$%&()[]{}|\\/'\"`?!") + ["\r", "\x0b", "\x1f", "\x7f", "\u00a0", "\ufeff", "\u200b"]
+EDIT_CHARS = ALPHABET + ["\n", " ", "\x00", "１", "𝟙", "_", "A", "z", "5", "V", "\t", "²"] + list("=*~^<>,;:@#$%&()[]{}|\\/'\"`?!") + ["\r", "\x0b", "\x1f", "\x7f", "\u00a0", "\ufeff", "\u200b", "\x01", "\x02", "\x08", "\x0e", "\x10", "\x1b"]
 MINIMUMS = (20000, 200)
 BATCH = 20000
 
